@@ -3,13 +3,13 @@ IMPLEMENTED = {"C01", "C02", "C03", "C04", "C05", "C06", "C07", "C08", "C09", "C
 TABLE = {
  "C19": {
   "technique": "multi-configuration differential testing of generated API programs (ten builds of one interpreter), with a per-build recomputation oracle for power-function-derived values and a plain-arithmetic oracle for ill-dimensioned programs",
-  "text": "Random well-dimensioned programs over quantities, states/commands, data, motion profiles, all stateful and stateless streams and all devices are executed by ten cfgrun binaries built from the same source against rrtk under {std, alloc+libm, alloc+micromath} x {checked, unchecked}, with and without debug assertions, plus the two feature-preference cases; traces must be token-identical except for power-function-derived values, which must be identical among builds sharing a power function, within 4 ulp between libm and std, and must satisfy the documented EWMA formula exactly with each build's own power value. Unit-scrambled twins run on the six unchecked builds and must neither panic nor be rejected and must equal both the well-dimensioned run and plain f32/i64 arithmetic.",
+  "text": "Random well-dimensioned programs over quantities, states/commands, data, motion profiles, all stateful and stateless streams and all devices are executed by ten cfgrun binaries built from the same source against rrtk under {std, alloc+libm, alloc+micromath} x {checked, unchecked}, with and without debug assertions, plus the two feature-preference cases (raw base/exponent pairs over the power function's special cases included); traces must be token-identical except for power-function-derived values, which must be identical among builds sharing a power function, within 4 ulp between libm and std, and must satisfy the documented EWMA formula exactly with each build's own power value. Unit-scrambled twins run on the six unchecked builds and must neither panic nor be rejected and must equal both the well-dimensioned run and plain f32/i64 arithmetic.",
   "note": "Ten builds cover every distinct cfg predicate in the sources, not every feature subset. micromath's power function is a coarse approximation by design and is treated as an uninterpreted per-build function. abs() is applied only to non-zero literals (abs(-0.0) keeps its sign without std: value-equal, but amplifiable by a later division).",
   "engine": "rrtk-verif driver + 10 cfgrun binaries",
  },
  "C16": {
   "technique": "exhaustive pattern enumeration with a poison hook and under Miri; grammar-generated safe probe programs with the compiler as oracle (must be rejected) and must-compile control twins",
-  "text": "(a) Every arity 1..8 and every present/absent pattern of the n-ary sum/product, every own/partner combination of the terminal state read and Axle<0..8> construction are executed with inputs whose exact result identifies the contributing subset, once with the 0x7F poison hook compiled in and once as a plain program under Miri with the hook off. (b) 121 #![forbid(unsafe_code)] probe programs generated from a grammar (11 terminal accessors x 6 ways of ending or moving the device x 2 uses, plus attempts to build dangling Borrow/BorrowMut/Reference values or call unsafe constructors safely) are each compiled by rustc against the live rrtk: a probe that type-checks is a violation; each probe's control twin must compile. The 66 accessor x scenario combinations that do type-check are recorded as known findings.",
+  "text": "(a) Every arity 1..8 and every present/absent pattern of the n-ary sum/product, every own/partner combination of the terminal state read, Axle<0..8> construction and Axle::get_terminal for every in-range index and twelve indices past the end are executed with inputs whose exact result identifies the contributing subset, once with the 0x7F poison hook compiled in and once as a plain program under Miri with the hook off. (b) 126 #![forbid(unsafe_code)] probe programs generated from a grammar (11 terminal accessors x 6 ways of ending or moving the device x 2 uses, plus attempts to build dangling Borrow/BorrowMut/Reference values or call unsafe constructors safely) are each compiled by rustc against the live rrtk: a probe that type-checks is a violation; each probe's control twin must compile. The 66 accessor x scenario combinations that do type-check are recorded as known findings.",
   "note": "Part (b) is bounded to the probe grammar: it refutes, it cannot prove absence over all safe programs. rustc (stable, the repository's toolchain) and Miri (nightly) are trusted oracles.",
   "engine": "rrtk-verif + rustc + cargo +nightly miri",
  },
@@ -25,7 +25,7 @@ TABLE = {
  },
  "C20": {
   "technique": "model-based / differential property testing over generated round histories with recording test doubles; PID wrapper vs a separately driven CommandPID",
-  "text": "Each wrapper is driven for up to 32 rounds of terminal data (own slot and/or connected external terminal, state and/or command or nothing) with inner objects that are present/absent/erroring or accept/reject; recording doubles show exactly what the inner settable received and when it was updated, the encoder's terminal slot is compared bit for bit with the getter's datum, errors must propagate, and the PID wrapper's motor values are compared exactly with a stand-alone CommandPID fed the same (time, state, command) sequence.",
+  "text": "Each wrapper is driven for up to 32 rounds of terminal data (own slot and/or connected external terminal, state and/or command or nothing) with inner objects that are present/absent/erroring or accept/reject; recording doubles show exactly what the inner settable received and when it was updated, the encoder double latches its reading in update() (so a wrapper that reads before it updates relays stale data) and the encoder's terminal slot is compared bit for bit with the getter's datum, errors must propagate, and the PID wrapper's motor values are compared exactly with a stand-alone CommandPID fed the same (time, state, command) sequence.",
   "note": "What the terminal 'sees' is its combined read just before the update; the motor double forwards followed values in update() as the Settable docs require.",
  },
  "C08": {
@@ -40,8 +40,8 @@ TABLE = {
  },
  "C06": {
   "technique": "property testing over generated profiles x boundary-focused query times; oracle = mutual-consistency tables of the accessors with t1..t3 recovered by bisection",
-  "text": "For thousands of generated profiles (built-to-be-accepted, unconstrained and accept/reject-edge families; all three end-command kinds) the phase boundaries are recovered from get_piece by bisection and every accessor is queried at i64 extremes, negative times, each boundary +-1 ns and interior points of each phase; piece/mode/acceleration/velocity/position/history must describe the same instant, pieces must be monotone in t, the history value must be bit-identical to the matching accessor, and the end command must be returned forever after completion.",
-  "note": "A constructor panic is a legal outcome (counted). Boundaries are private and observed only through get_piece.",
+  "text": "For thousands of generated profiles (built-to-be-accepted, unconstrained and accept/reject-edge families; all three end-command kinds) the phase boundaries are recovered from get_piece by bisection and every accessor is queried at i64 extremes, negative times, each boundary +-1 ns and interior points of each phase; piece/mode/acceleration/velocity/position/history must describe the same instant, pieces must be monotone in t, the boundaries printed by the derived Debug impl must satisfy 0 <= t1 <= t2 <= t3, the history value must be bit-identical to the matching accessor, and the end command must be returned forever after completion.",
+  "note": "A constructor panic is a legal outcome (counted). Boundaries are private; they are observed through get_piece and, as a second view, parsed from the Debug output (skipped if the format changes).",
  },
  "C07": {
   "technique": "property testing against an f64 reference trapezoid with running error bound, exact mirror metamorphism, must-accept oracle",
@@ -70,8 +70,8 @@ TABLE = {
  },
  "C03": {
   "technique": "exhaustive boundary-grid enumeration + random i64 timestamp pairs against max-of-contributors / newest-candidate oracles",
-  "text": "All 49 pairs of the extreme/adjacent timestamp grid are crossed with all 64 Datum operator impls (four payload types, Datum/scalar right-hand sides, assign forms), Neg/Not, latest(), the three replace helpers in every slot/candidate state and the terminal reads; random pairs (arbitrary, equal, adjacent) and the timestamp-combining streams through C02's reference with extreme timestamps. Result time must be the maximum of the contributing operands (unchanged for scalars), selections must return a candidate with none strictly newer, replace helpers must replace iff strictly newer or empty and say so.",
-  "note": "Ties in selections accept any newest candidate. Device-update timestamps are asserted in the C08/C13 checks.",
+  "text": "All 49 pairs of the extreme/adjacent timestamp grid are crossed with all 64 Datum operator impls (four payload types, Datum/scalar right-hand sides, assign forms), Neg/Not, latest(), the three replace helpers in every slot/candidate state and the terminal reads; random pairs (arbitrary, equal, adjacent) the timestamp-combining streams through C02's reference with extreme timestamps, and device updates (inverter, gear train, axle, differential) through C08's driver, whose timestamp verdicts are reported here. Result time must be the maximum of the contributing operands (unchanged for scalars), selections must return a candidate with none strictly newer, replace helpers must replace iff strictly newer or empty and say so.",
+  "note": "Ties in selections accept any newest candidate. Device-update values and constraints are C08's verdicts, only their timestamps count here.",
  },
  "C02": {
   "technique": "exhaustive enumeration of input categories x timestamp orderings against a table-driven reference model, plus metamorphic relations (proptest for values/arity)",
